@@ -113,6 +113,48 @@ def module_state(mods):
     return st
 
 
+def _func_state(f, st, key, depth=0):
+    """mutable state reachable from a function object: closure cells, mutable defaults, function attributes (memo tables live there)"""
+    if depth > 3 or not isinstance(f, types.FunctionType):
+        return
+    for i, cell in enumerate(f.__closure__ or ()):
+        try:
+            v = cell.cell_contents
+        except ValueError:
+            continue
+        if isinstance(v, (dict, list, set)):
+            st[key + ('closure', i)] = _snap_val(v)
+        elif isinstance(v, types.FunctionType):
+            _func_state(v, st, key + ('closure', i), depth + 1)
+    for i, v in enumerate(f.__defaults__ or ()):
+        if isinstance(v, (dict, list, set)):
+            st[key + ('default', i)] = _snap_val(v)
+    for k, v in (f.__dict__ or {}).items():
+        if isinstance(v, (dict, list, set)):
+            st[key + ('attr', k)] = _snap_val(v)
+        elif isinstance(v, types.FunctionType) and k == '__wrapped__':
+            _func_state(v, st, key + ('attr', k), depth + 1)
+
+
+def function_state(mods):
+    st = {}
+    for m in mods:
+        for k, v in vars(m).items():
+            if isinstance(v, types.FunctionType) and getattr(v, '__module__', '').startswith(('geodepy', 'vs_')):
+                _func_state(v, st, (m.__name__, k))
+            elif isinstance(v, type) and getattr(v, '__module__', '').startswith('geodepy'):
+                for kk, vv in vars(v).items():
+                    if isinstance(vv, types.FunctionType):
+                        _func_state(vv, st, (m.__name__, k, kk))
+    return st
+
+
+def full_state(mods):
+    st = module_state(mods)
+    st.update(function_state(mods))
+    return st
+
+
 def diff_state(a, b):
     return sorted(str(k) for k in set(a) | set(b) if a.get(k) != b.get(k))
 
@@ -184,6 +226,10 @@ def specs(tier, concrete_heavy=False):
     a(('statistics.vcv_local2cart[3x1]', lambda: (gs.vcv_local2cart, (npx.FArr([[R('d0', 0, 9)], [R('d1', 0, 9)], [R('d2', 0, 9)]]), R('lat', -90, 90), R('lon', -180, 180)))))
     a(('statistics.error_ellipse', lambda: (gs.error_ellipse, (vcv(),))))
     a(('statistics.relative_error', lambda: (gs.relative_error, (R('lat', -90, 90), R('lon', -180, 180), vcv(), vcv(), vcv()))))
+    # a fixed first station (null covariance): special-cased inputs are where results get aliased to arguments
+    a(('statistics.relative_error[fixed station]', lambda: (gs.relative_error, (R('lat', -90, 90), R('lon', -180, 180), npx.FArr([[0.0] * 3 for _ in range(3)]),
+                                                                               vcv(), npx.FArr([[0.0] * 3 for _ in range(3)])))))
+    a(('statistics.vcv_cart2local[null]', lambda: (gs.vcv_cart2local, (npx.FArr([[0.0] * 3 for _ in range(3)]), R('lat', -90, 90), R('lon', -180, 180)))))
     a(('statistics.circ_hz_pu', lambda: (gs.circ_hz_pu, (R('sa', 1, 10), R('sb', 0, 1)))))
     a(('statistics.k_val95', lambda: (gs.k_val95, (R('dof', -5, 200, is_int=True),))))
     # survey
@@ -255,12 +301,12 @@ def check_spec(name, mk, tier, seed):
     def run():
         fn, args = mk()
         before_args = _snap_val(list(args))
-        st0 = module_state(mods)
+        st0 = full_state(mods)
         r1 = fn(*args)
         mid_args = _snap_val(list(args))
-        st1 = module_state(mods)
+        st1 = full_state(mods)
         r2 = fn(*args)
-        st2 = module_state(mods)
+        st2 = full_state(mods)
         return r1, r2, before_args == mid_args, diff_state(st0, st1) + diff_state(st1, st2)
     out = []
     from checks import tmcommon as TC
